@@ -14,7 +14,7 @@ RULE = ("stateful: two live objects (a sequence and its reversal; N=1..130 so th
         "missing; one value not a colour name: 'pink', '', '#ff0000', None, 'Red '), render}; a third of the updates pass one caller-owned dictionary object that is refilled, and possibly edited further after the call; a missing amino acid may be hidden behind extra keys; model palette updated only by valid dictionaries; "
         "every render is tokenised: N spans in order with residue i and colour model[residue]; a space before token i iff i%10==0; a <br> "
         "before token i iff i%50==0; nothing else inside the <p>; stripping tags and blanks recovers the sequence. enum: N in 1..130 with the "
-        "default palette. Non-trivial: N>10 with >=1 palette change before a render; distinct by (sequence, history).")
+        "default palette. Non-trivial: N>10 with >=1 palette change before a render; distinct by (sequence, history). Palettes arrive as dict, OrderedDict, defaultdict (complete ones) or a dict subclass; keys that are not amino acids may carry None, numbers or lists.")
 ASSUMPTIONS = ["upper-case colour names are not generated: the property says 'one of the 17 standard names' and the code compares case-sensitively",
                "the tokeniser accepts either order of the space and the <br> that open a block"]
 TECHNIQUE = "Hypothesis stateful testing (RuleBasedStateMachine) with a model palette; rendered string parsed by an independent tokeniser (round-trip to the sequence)"
